@@ -1,0 +1,115 @@
+//go:build verif
+
+// Contracts for the session state (flags, navigation stack, input), checked by
+// /verif/cmd/vcgo. Comments only; compiled only under the `verif` tag.
+
+package state
+
+// The flag byte array covers BitSize bits; the eight built-in flags exist.
+//@ pred flagsOk(st) = st != nil && st.BitSize >= 8 && len(st.Flags) * 8 >= int(st.BitSize)
+//@ pred flag(st, i) = bit(st.Flags[i / 8], i % 8)
+//@ pred otherFlagsSame(st, i) = forall(j, 0, 8 * len(st.Flags), j != i ==> flag(st, j) == old(flag(st, j)))
+//@ pred sameFlags(st) = forall(j, 0, 8 * len(st.Flags), flag(st, j) == old(flag(st, j)))
+//@ pred samePath(st) = len(st.ExecPath) == old(len(st.ExecPath)) && forall(i, 0, len(st.ExecPath), st.ExecPath[i] == old(st.ExecPath[i]))
+//@ pred samePosition(st) = samePath(st) && st.SizeIdx == old(st.SizeIdx)
+
+//@ func getFlag
+//@   requires int(bitIndex) / 8 < len(bitField)
+//@   ensures result == bit(bitField[int(bitIndex) / 8], int(bitIndex) % 8)
+
+//@ func IsWriteableFlag
+//@   ensures[C06] @reserved result == (flag > 5)
+
+//@ func (*State).GetFlag
+//@   requires flagsOk(st) && bitIndex < st.BitSize
+//@   ensures result == flag(st, int(bitIndex))
+
+//@ func (*State).MatchFlag
+//@   requires flagsOk(st) && sig < st.BitSize
+//@   ensures[C06] @match result == (matchSet == flag(st, int(sig)))
+
+//@ func (*State).SetFlag
+//@   requires flagsOk(st) && bitIndex < st.BitSize
+//@   modifies st.Flags[int(bitIndex) / 8]
+//@   ensures[C06] @set flag(st, int(bitIndex)) && result == !old(flag(st, int(bitIndex)))
+//@   ensures[C06] @others otherFlagsSame(st, int(bitIndex))
+
+//@ func (*State).ResetFlag
+//@   requires flagsOk(st) && bitIndex < st.BitSize
+//@   modifies st.Flags[int(bitIndex) / 8]
+//@   ensures[C06] @reset !flag(st, int(bitIndex)) && result == old(flag(st, int(bitIndex)))
+//@   ensures[C06] @others otherFlagsSame(st, int(bitIndex))
+
+// ---- navigation stack (C04) ----
+//@ pred pathPrefix(st, n) = forall(i, 0, n, st.ExecPath[i] == old(st.ExecPath[i]))
+//@ ghost last(st) = st.ExecPath[len(st.ExecPath)-1]
+
+//@ func (*State).Where
+//@   requires st != nil
+//@   ensures[C04] @where (len(st.ExecPath) == 0 ==> result0 == "" && result1 == 0) && (len(st.ExecPath) > 0 ==> result0 == last(st) && result1 == st.SizeIdx)
+
+//@ func (*State).Top
+//@   requires st != nil
+//@   ensures[C04] @top (len(st.ExecPath) == 0 ==> result1 != nil && !result0) && (len(st.ExecPath) > 0 ==> result1 == nil && result0 == (len(st.ExecPath) == 1))
+
+//@ func (*State).Depth
+//@   requires st != nil
+//@   ensures result == len(st.ExecPath) - 1
+
+// Down panics deliberately beyond MaxLevel and when descending into the node
+// it is already in; both are preconditions here and obligations at call sites.
+//@ func (*State).Down
+//@   requires st != nil && len(st.ExecPath) <= MaxLevel
+//@   requires len(st.ExecPath) > 0 ==> last(st) != input
+//@   modifies st.ExecPath, st.ExecPath[*], st.SizeIdx, st.Moves, st.lastMove
+//@   ensures[C04] @down result == nil && len(st.ExecPath) == old(len(st.ExecPath)) + 1 && last(st) == input && st.SizeIdx == 0
+//@   ensures[C04] @kept pathPrefix(st, old(len(st.ExecPath)))
+
+//@ func (*State).Up
+//@   requires st != nil
+//@   modifies st.ExecPath, st.SizeIdx, st.Moves, st.lastMove
+//@   ensures[C04] @empty old(len(st.ExecPath)) == 0 ==> result1 != nil && samePosition(st) && unchanged(st.Moves, st.lastMove)
+//@   ensures[C04] @up old(len(st.ExecPath)) > 0 ==> result1 == nil && len(st.ExecPath) == old(len(st.ExecPath)) - 1 && st.SizeIdx == 0
+//@     && pathPrefix(st, len(st.ExecPath))
+//@   ensures[C04] @sym old(len(st.ExecPath)) > 1 ==> result0 == last(st)
+//@   ensures[C04] @symtop old(len(st.ExecPath)) == 1 ==> result0 == ""
+
+//@ func (*State).Next
+//@   requires st != nil
+//@   modifies st.SizeIdx, st.Moves, st.lastMove
+//@   ensures[C04,C02] @empty len(st.ExecPath) == 0 ==> result1 != nil && unchanged(st.SizeIdx, st.Moves, st.lastMove)
+//@   ensures[C04,C02] @next len(st.ExecPath) > 0 ==> result1 == nil && int(st.SizeIdx) == (old(int(st.SizeIdx)) + 1) % 65536 && result0 == st.SizeIdx
+//@   ensures[C04] @path samePath(st)
+
+//@ func (*State).Previous
+//@   requires st != nil
+//@   modifies st.SizeIdx, st.Moves, st.lastMove
+//@   ensures[C04,C02] @empty len(st.ExecPath) == 0 ==> result1 != nil && unchanged(st.SizeIdx, st.Moves, st.lastMove)
+//@   ensures[C04,C02,C03] @first len(st.ExecPath) > 0 && old(st.SizeIdx) == 0 ==> result1 == IndexError && unchanged(st.SizeIdx, st.Moves, st.lastMove)
+//@   ensures[C04,C02] @previous len(st.ExecPath) > 0 && old(st.SizeIdx) > 0 ==> result1 == nil && int(st.SizeIdx) == old(int(st.SizeIdx)) - 1 && result0 == st.SizeIdx
+//@   ensures[C04] @path samePath(st)
+
+//@ func (*State).Same
+//@   requires st != nil
+//@   modifies st.Moves
+//@   ensures[C04] @same samePosition(st)
+
+//@ func (*State).SetInput
+//@   requires st != nil
+//@   modifies st.input
+//@   ensures[C17,C08] @limit len(input) > 255 ==> result != nil && unchanged(st.input)
+//@   ensures[C17] @accepted len(input) <= 255 ==> result == nil && st.input == input
+
+//@ func (*State).GetInput
+//@   requires st != nil
+//@   ensures (st.input == nil ==> result1 != nil) && (st.input != nil ==> result1 == nil && result0 == st.input)
+
+//@ func (*State).GetCode
+//@   requires st != nil
+//@   modifies st.Code
+//@   ensures result1 == nil && result0 == old(st.Code) && len(st.Code) == 0 && st.Code != nil
+
+//@ func (*State).SetCode
+//@   requires st != nil
+//@   modifies st.Code
+//@   ensures st.Code == b
